@@ -22,7 +22,7 @@ TECHNIQUE = 'reference-model monitor (independent DAQmx encoder + byte-level ora
 RULE = ('random DAQmx files from vlib.daqmx.gen_daqmx; non-trivial = >=2 scalers in the file and >=1 value; distinct = '
         '(digital, widths, buffer lengths, per-channel (raw, scaler types/buffers/offsets), per-segment (endian, nchunks, metadata kind))')
 ASSUMPTIONS = ['an acquisition buffer no scaler refers to has zero rows', 'scaled chunk streams are compared with slices of the eager scaled result']
-REQUIRED = ['scalers_decoded_short_reads', 'chunk_streams_collected_first', 'chunk_streams_read_in_loop', 'scalers_decoded_memmap', 'files_with_channel_switched_off', 'scalers_decoded', 'windows_compared', 'chunk_streams_compared', 'cuts_checked', 'contract:receiver.append_scaler_data']
+REQUIRED = ['bare_scaler_outputs', 'scalers_decoded_short_reads', 'chunk_streams_collected_first', 'chunk_streams_read_in_loop', 'scalers_decoded_memmap', 'files_with_channel_switched_off', 'scalers_decoded', 'windows_compared', 'chunk_streams_compared', 'cuts_checked', 'contract:receiver.append_scaler_data']
 N = {'quick': 1500, 'thorough': 50000}
 
 
@@ -65,7 +65,14 @@ def build(case):
     # make some channels scalable: NI_Number_Of_Scales = ns+1, last scale Linear reading scaler j
     for ch in f.chans:
         ids = sorted(s['id'] for s in ch['scalers'])
-        if ch['raw'] and ids == list(range(len(ids))) and rng.random() < 0.7:
+        pick = rng.random()
+        if ch['raw'] and ids == list(range(len(ids))) and 0.7 <= pick < 0.85:
+            # the bare DAQmx scaler as the channel's output: NI_Number_Of_Scales = number of scalers, no scale definitions;
+            # the channel's data is the last scaler's, in that scaler's type
+            ch['scaled_from'] = len(ids) - 1
+            ch['bare_scaler_output'] = True
+            f.props[f.path(ch)] = [('NI_Number_Of_Scales', 7, lambda e, k=len(ids): struct.pack(e + 'I', k))]
+        elif ch['raw'] and ids == list(range(len(ids))) and pick < 0.7:
             k = len(ids)
             j = rng.randrange(k)
             ch['scaled_from'] = j
@@ -124,6 +131,11 @@ def run_case(case, ctx):
         if not ch['raw'] or 'scaled_from' in ch:
             try:
                 eager_scaled[ch['name']] = c[:]
+                if ch.get('bare_scaler_output'):
+                    ctx.count('bare_scaler_outputs')
+                    want_ = f.expected(ch, [s_ for s_ in ch['scalers'] if s_['id'] == ch['scaled_from']][0])
+                    if not eq(c[:], want_) or c.dtype != want_.dtype:
+                        ctx.violation('decode/bare-scaler-output', {'chan': ch, 'got_dtype': str(c[:].dtype), 'declared': str(c.dtype), 'want_dtype': str(want_.dtype), 'file': f.describe()})
                 if not ch['raw'] and not eq(c[:], f.expected(ch, ch['scalers'][0])):
                     ctx.violation('decode/typed-channel-data', {'chan': ch})
             except Exception as ex:
